@@ -141,7 +141,7 @@ def models(tier, seed):
     shapes = [("u32",), ("u8", "u64"), ("struct", "u32"), ("slice",), ("ptr", "bool", "i32"), ("cb", "usize"), ()]
     rets = ["void", "u32", "u64", "bool", "struct", "ptr"]
     recvs = ["ref", "mut", "own"]
-    k = 0
+    k = seed % 7
     for inner, ctx in itertools.product(["Box", "Mut", "Ref"], ["Arc", ""]):
         ms = []
         for j in range(3):
@@ -154,10 +154,9 @@ def models(tier, seed):
         extra.append({"id": "gen_%s_%s" % (inner.lower(), ctx.lower() or "noctx"), "prefix": None,
                       "traits": [{"name": "Tr", "methods": ms}], "objects": [("Tr", inner, ctx)], "groups": []})
         k += 1
-    if tier == "thorough":
-        return core + extra
-    rot = seed % len(extra)
-    return core + [extra[rot], extra[(rot + 3) % len(extra)]]
+    # the whole pipeline takes seconds: both tiers use every model; the seed rotates the argument/return shapes of the
+    # generated per-container models
+    return core + extra
 
 
 # ------------------------------------------------------------------------------------------------
